@@ -11,6 +11,19 @@ CLAUSES = {'Crash', 'SpuriousError', 'ObjectNotDelivered', 'EosNotRaised', 'NotS
            'WrongObject', 'WrongPosition', 'PollAfterEnd'}
 
 
+def big_streams(ctx, first_sid):
+    from pyasn1.codec.ber import encoder as be
+    from pyasn1.type import univ
+    from .. import universe as U
+    out = []
+    ints = [list(be.encode(univ.Integer(i * 37 - 20000))) for i in range(3500 if ctx.quick else 9000)]
+    out.append(SP.Stream(first_sid, P.sc('int'), ints, 'ber', True, 'int x %d (big)' % len(ints)))
+    so = {'k': 'seqof', 'tags': [], 'of': P.sc('octs')}
+    v = U.build_value(so, {'es': [{'o': [i % 251] * (i % 7)} for i in range(4000)]})
+    out.append(SP.Stream(first_sid + 1, so, [list(be.encode(v, defMode=False)), list(be.encode(univ.SequenceOf(componentType=univ.OctetString()).clone().clear() or v, defMode=False))[:0] or list(be.encode(v, defMode=False))], 'ber', True, 'indefinite SEQUENCE OF OCTET STRING x 2 (big)'))
+    return out
+
+
 def run(ctx):
     rnd = random.Random(ctx.seed)
     max_len = 9 if ctx.quick else 13
@@ -26,6 +39,24 @@ def run(ctx):
             for kind, parts, cwl, idle in SP.schedules_for(st, ['K3', 'K4']):
                 yield kind, parts, cwl, idle, len(st.data)
         traces, meta = SP.run_streams(ctx, streams, jobs_of)
+        # streams much larger than the wrapper's read-ahead buffer, sampled bursts (not exhaustive)
+        big = big_streams(ctx, first_sid=len(streams) + 1)
+
+        def big_jobs(st):
+            n = len(st.data)
+            for kind in ('K3', 'K4'):
+                for _ in range(2 if ctx.quick else 6):
+                    parts, left = [], n
+                    while left:
+                        k = min(left, rnd.choice([1, 2, 5, 100, 1000, 3000, 8192, 8193]))
+                        parts.append(k)
+                        left -= k
+                    yield kind, parts, rnd.random() < 0.5, 0, n
+        t3, m3 = SP.run_streams(ctx, big, big_jobs)
+        for t in t3:
+            t['id'] += len(traces)
+        traces += t3
+        meta.update({k + len(traces) - len(t3): v for k, v in m3.items()})
         t2, m2 = SP.run_k2_streams(ctx, streams, first_id=len(traces), limit=120 if ctx.quick else 400)
         traces += t2
         meta.update(m2)
